@@ -123,8 +123,8 @@ CONSTANT Deep          \* TRUE: larger enumeration (thorough tier)
 StepDom == {0, 1, 2, 3, 4, 6}
 NDom == {0, 1, 2, 3, 4, 6}
 SmallCases == UNION {[1..k -> {Arch(s, n) : s \in StepDom \cup (IF Deep THEN {5, 8, 12} ELSE {}), n \in NDom \cup (IF Deep THEN {5, 8, 12} ELSE {})}] : k \in 1..2}
-TripleCases == IF Deep THEN [1..3 -> {Arch(s, n) : s \in {1, 2, 4, 8}, n \in {1, 2, 3, 4}}]
-               ELSE [1..3 -> {Arch(s, n) : s \in {1, 2, 4}, n \in {1, 2, 4}}]
+TripleCases == IF Deep THEN [1..3 -> {Arch(s, n) : s \in {1, 2, 3, 4, 6, 8}, n \in {1, 2, 3, 4}}]
+               ELSE [1..3 -> {Arch(s, n) : s \in {1, 2, 3, 4}, n \in {1, 2, 4}}]    \* incl. 1,2,3: the first step divides 3, the second does not
 BigCases == {<<Arch(1, MaxInt31)>>, <<Arch(1, MaxRecords)>>, <<Arch(1, MaxRecords - 1)>>, <<Arch(1, MaxRecords - 2)>>,
              <<Arch(2, 1073741824)>>, <<Arch(2, 1073741823)>>, <<Arch(1, 631152000)>>, <<Arch(60, 35791394)>>,
              <<Arch(60, 35791395)>>, <<Arch(1, 178956969), Arch(2, 178956969)>>, <<Arch(1, 178956968), Arch(2, 178956969)>>,
